@@ -686,13 +686,15 @@ Section Walk.
     - cbn [app map lookup_w cget t_children t_wild t_regexps].
       destruct (aget l ch) as [c|] eqn:G.
       + destruct (wf_child_leaf _ _ _ _ _ _ W G D) as (k & v & ->). reflexivity.
-      + cbn [is_nil andb]. destruct w as [kvw|]; cbn [is_some andb rx_find]; reflexivity.
+      + cbn [is_nil andb]. destruct w as [kvw|]; cbn [is_some andb]; reflexivity.
     - inversion F as [|? ? Ds Fs]; subst.
       cbn [app map lookup_w cget t_children t_wild t_regexps lab].
-      destruct (aget s ch) as [c|] eqn:G.
-      + apply IH; auto. eapply wf_child_dotted; eauto.
-      + assert (is_nil (ss ++ [l]) = false) as -> by (destruct ss; reflexivity).
-        cbn [andb rx_find]. reflexivity.
+      assert (is_nil (ss ++ [l]) = false) as -> by (destruct ss; reflexivity).
+      cbn [andb].
+      destruct (aget s ch) as [c|] eqn:G; [|reflexivity].
+      rewrite (IH c l (wf_child_dotted _ _ _ _ _ _ W G Ds) Fs D NS).
+      destruct (cget c (map lab ss ++ [KLab l true])); [reflexivity|].
+      destruct (cget c (map lab ss ++ [KStar])); reflexivity.
   Qed.
 
   Lemma canon_steps ss fin :
